@@ -48,8 +48,8 @@ add("C05", "other",
     "(numeric)." + MIX, TB)
 add("C06", "other",
     "Proved for the triangular bank and Fbank: start bin in [0, width), support within the half spectrum, taps equal to the documented response "
-    "(so the rebuilt response is the full response), zero at DC / Nyquist, from the constructors' invariants (also proved); for the triangular "
-    "bank also get_frequency_response: documented length with and without half, the triangle at every bin, the real bank's full response "
+    "(so the rebuilt response is the full response), zero at DC / Nyquist, from the constructors' invariants (also proved); for both "
+    "banks also get_frequency_response: documented length with and without half, the triangle at every bin, the real bank's full response "
     "Hermitian-symmetric with the triangle on its leading bins (so half=True is a prefix of it), the analytic bank zero above the Nyquist bin. "
     "The 2 x threshold clause for Gabor / gammatone, the half / full / Hermitian clauses of the other banks, reuse of one bank object across "
     "requests and boundary-valued frequency ranges are bounded." + MIX, TB)
